@@ -8,7 +8,7 @@ from engine import symex, symfile
 from engine.symex import CTX, PatchDoesNotApply
 from engine.symfile import BV64, SymBytes, SymFile, Disk, bv, W, side
 from props import bundle
-from props.bundle import (V2, inv_v2, le_bytes, U, IDX2, load_compact, run_sym, ModelFile, model_byte_fn, map_byte_fn, V1, inv_v1, disjoint_v1,
+from props.bundle import (untouched, v2_index_addr, v1_index_addr, V2, inv_v2, le_bytes, U, IDX2, load_compact, run_sym, ModelFile, model_byte_fn, map_byte_fn, V1, inv_v1, disjoint_v1,
                           DATA1_TABLE_END)
 
 MOD = 'props.C19_bundle'
@@ -25,9 +25,7 @@ def goal_store_v2(C, nbytes, part=None):
     s = CTX.solver
     off_b, size_b = st.entry(st.arr0, st.L, st.x2, st.y2)
     s.add(inv_v2(st.arr0, st.L, off_b, size_b))
-    fh = SymFile(st.disk, 'bundle')
-    st.b._store_tile(fh, (BV64(st.x), BV64(st.y), 0), SymBytes(st.d))
-    fh.close()
+    st.b.store_tiles([_STile((BV64(st.x), BV64(st.y), 0), SymBytes(st.d))])     # the real public method, end to end
     arr1, L1 = st.disk.files['bundle']
     L1 = bv(L1)
     off_a, size_a = st.entry(arr1, L1, st.x2, st.y2)
@@ -38,8 +36,11 @@ def goal_store_v2(C, nbytes, part=None):
     parts = {
         'readback': z3.And(off_w == st.L + 4, size_w == nbytes, *[z3.Select(arr1, st.L + 4 + i) == st.d[i] for i in range(nbytes)]),
         'written-inv': inv_v2(arr1, L1, off_w, size_w),
-        'other-entry': z3.Implies(z3.Not(same), z3.And(off_a == off_b, size_a == size_b)),
-        'other-bytes': z3.Implies(z3.And(z3.Not(same), in_old_record), z3.Select(arr1, a) == z3.Select(st.arr0, a)),
+        # frame argument over the flush log of the real run: the other slot's index entry and every byte of
+        # its record (incl. the size field) lie outside everything that was written
+        'other-entry': z3.Implies(z3.Not(same), z3.And(untouched(st.disk.log, 'bundle', v2_index_addr(st.x2, st.y2), 8),
+                                                       off_a == off_b, size_a == size_b)),
+        'other-bytes': z3.Implies(z3.And(z3.Not(same), in_old_record), untouched(st.disk.log, 'bundle', a)),
         'other-inv': z3.Implies(z3.Not(same), inv_v2(arr1, L1, off_b, size_b)),
         'length': L1 == st.L + 4 + nbytes,
         'no-overflow': z3.And(*side()) if side() else z3.BoolVal(True),
@@ -54,10 +55,7 @@ def goal_remove_v2(C, nbytes, part=None):
     s = CTX.solver
     off_b, size_b = st.entry(st.arr0, st.L, st.x2, st.y2)
     s.add(inv_v2(st.arr0, st.L, off_b, size_b))
-    fh = SymFile(st.disk, 'bundle')
-    rx, ry = st.b._rel_tile_coord((BV64(st.x), BV64(st.y), 0))
-    st.b._update_tile_offset(fh, rx, ry, 0, 0)
-    fh.close()
+    st.b.remove_tile(_STile((BV64(st.x), BV64(st.y), 0), None))
     arr1, L1 = st.disk.files['bundle']
     L1 = bv(L1)
     off_a, size_a = st.entry(arr1, L1, st.x2, st.y2)
@@ -67,8 +65,9 @@ def goal_remove_v2(C, nbytes, part=None):
     in_old_record = z3.And(size_b != 0, z3.UGE(a, off_b - 4), z3.ULT(a, off_b + size_b))
     parts = {
         'readback': z3.And(size_w == 0, L1 == st.L),
-        'other-entry': z3.Implies(z3.Not(same), z3.And(off_a == off_b, size_a == size_b)),
-        'other-bytes': z3.Implies(z3.And(z3.Not(same), in_old_record), z3.Select(arr1, a) == z3.Select(st.arr0, a)),
+        'other-entry': z3.Implies(z3.Not(same), z3.And(untouched(st.disk.log, 'bundle', v2_index_addr(st.x2, st.y2), 8),
+                                                       off_a == off_b, size_a == size_b)),
+        'other-bytes': z3.Implies(z3.And(z3.Not(same), in_old_record), untouched(st.disk.log, 'bundle', a)),
         'other-inv': z3.Implies(z3.Not(same), inv_v2(arr1, L1, off_b, size_b)),
         'no-overflow': z3.And(*side()) if side() else z3.BoolVal(True),
     }
@@ -99,11 +98,48 @@ def native_check_v2(kind, L, x, y, x2, y2, payload, a, byte_at, patches):
         return False, 'pre-state does not satisfy the invariant (model artefact)', f
     old = {p: f.get(p) for p in ([a] if a is not None else [])}
     try:
+        import contextlib
+
+        class FH(object):
+            def __getattr__(self, kk):
+                return getattr(f, kk)
+
+            def __enter__(self):
+                return self
+
+            def __exit__(self, *a_):
+                pass
+        C.__dict__['__builtins__'] = dict(C.__dict__['__builtins__'])
+        C.__dict__['__builtins__']['open'] = lambda name, mode='r': FH()
+
+        @contextlib.contextmanager
+        def lock(*a_, **kw):
+            yield
+        C.FileLock = lock
+        real_os = C.os
+
+        class OS(object):
+            SEEK_SET, SEEK_END = 0, 2
+
+            class path(object):
+                exists = staticmethod(lambda p: True)
+                join = staticmethod(real_os.path.join)
+        C.os = OS
+
+        @contextlib.contextmanager
+        def tile_buffer(tile):
+            class Buf(object):
+                def read(self_):
+                    return tile.source
+            yield Buf()
+        C.tile_buffer = tile_buffer
+        b.filename, b.lock_filename = '/b/x.bundle', '/b/x.lck'
+        b.file_permissions = b.directory_permissions = None
+        b._initialized = False
         if kind == 'store':
-            b._store_tile(f, (x, y, 0), bytes(payload))
+            b.store_tiles([_STile((x, y, 0), bytes(payload))])
         else:
-            rx, ry = b._rel_tile_coord((x, y, 0))
-            b._update_tile_offset(f, rx, ry, 0, 0)
+            b.remove_tile(_STile((x, y, 0), None))
     except Exception as e:
         return True, 'real code raised %s: %s' % (type(e).__name__, e), f
     off_w, size_w = entry(f, x, y)
@@ -141,7 +177,7 @@ def run_v2(spec):
     else:
         res, st = run_sym(lambda: goalfn(C, nbytes, a.get('part')))
     out = dict(status=res.status, stats=res.stats, detail=res.reason or (res.exc or ''), engine='E4',
-               functions=['BundleV2._store_tile', 'BundleV2._append_tile', 'BundleV2._update_tile_offset', 'BundleV2._update_metadata',
+               functions=['BundleV2.store_tiles', 'BundleV2.remove_tile', 'BundleV2._store_tile', 'BundleV2._append_tile', 'BundleV2._update_tile_offset', 'BundleV2._update_metadata',
                           'BundleV2._tile_offset_size', 'BundleV2._rel_tile_coord', 'BundleV2._tile_idx_offset'])
     if res.status == 'sat' and st is not None:
         m = res.model
@@ -197,8 +233,9 @@ def goal_store_v1(C, nbytes, part=None):
     parts = {
         'readback': z3.And(off_w == st.Ld, size_w == nbytes, *[z3.Select(dat1, st.Ld + 4 + i) == st.d[i] for i in range(nbytes)]),
         'written-inv': inv_v1(dat1, Ld1, off_w, size_w),
-        'other-entry': z3.Implies(z3.Not(same), z3.And(off_a == off_b, size_a == size_b)),
-        'other-bytes': z3.Implies(z3.And(z3.Not(same), in_b), z3.Select(dat1, a) == z3.Select(st.dat0, a)),
+        'other-entry': z3.Implies(z3.Not(same), z3.And(untouched(st.disk.log, '/b/R0000C0000.bundlx', v1_index_addr(st.x2, st.y2), 5),
+                                                       off_a == off_b, size_a == size_b)),
+        'other-bytes': z3.Implies(z3.And(z3.Not(same), in_b), untouched(st.disk.log, '/b/R0000C0000.bundle', a)),
         'other-inv': z3.Implies(z3.Not(same), z3.And(inv_v1(dat1, Ld1, off_b, size_b), disjoint_v1(off_w, size_w, off_b, size_b))),
         'length': Ld1 == st.Ld + 4 + nbytes,
         'no-overflow': z3.And(*side()) if side() else z3.BoolVal(True),
@@ -222,8 +259,9 @@ def goal_remove_v1(C, nbytes, part=None):
     a = st.a
     parts = {
         'readback': z3.And(off_w == 0, bv(Ld1) == st.Ld),
-        'other-entry': z3.Implies(z3.Not(same), z3.And(off_a == off_b, size_a == size_b)),
-        'other-bytes': z3.Select(dat1, a) == z3.Select(st.dat0, a),
+        'other-entry': z3.Implies(z3.Not(same), z3.And(untouched(st.disk.log, '/b/R0000C0000.bundlx', v1_index_addr(st.x2, st.y2), 5),
+                                                       off_a == off_b, size_a == size_b)),
+        'other-bytes': untouched(st.disk.log, '/b/R0000C0000.bundle', a),
         'no-overflow': z3.And(*side()) if side() else z3.BoolVal(True),
     }
     goal = parts[part] if part else z3.And(*parts.values())
@@ -651,7 +689,7 @@ META = dict(
                 '_update_tile_offset(0,0): the written slot reads back exactly (length+4, n) and the payload and satisfies the '
                 'invariant; every other slot keeps its entry, its record bytes and size field, and its invariant; the file '
                 'grows by exactly n+4 bytes; no offset arithmetic overflows 64 bits and every struct.pack fits its field.',
-    functions=['BundleV2._store_tile', 'BundleV2._append_tile', 'BundleV2._update_tile_offset', 'BundleV2._update_metadata',
+    functions=['BundleV2.store_tiles', 'BundleV2.remove_tile', 'BundleV2._store_tile', 'BundleV2._append_tile', 'BundleV2._update_tile_offset', 'BundleV2._update_metadata',
                'BundleV2._tile_offset_size', 'BundleV2._rel_tile_coord', 'BundleV2._tile_idx_offset'],
     bounds='payload 3 bytes (thorough: 1, 3, 4); file length < 2^40 - 4096 (offsets are 40 bit); one store or remove per step '
            '(batches are repeated steps)',
